@@ -60,6 +60,7 @@ def jobs_c01(tier, seed):
         scen("barrier-matrix", "C01", "dbg", "c06"),
         scen("barrier-matrix", "C01", "rel", "c06"),
         miri_rnd("C01", tier),
+        dict(name="bex", bin="gcmon", flavour="dbg", args=["bex", "--prop", "C01", "--states", size(tier, 1500, 40000), "--depth", size(tier, 8, 14)]),
     ] + ([miri_scen("C01", "c06", tier), vg("random-vg", ["random", "--prop", "C01", "--count", 2000, "--pacing-cycle"])] if tier == T else [])
 
 
@@ -73,6 +74,9 @@ def jobs_simple(prop, profile="general", matrix=None, miri_tables=None):
         ]
         if profile != "general":
             js.append(rnd("random-general", prop, "dbg", n // 2))
+        if prop in ("C08", "C10", "C02", "C05"):
+            # the contract keeps holding on the calls that follow a caught panic
+            js.append(rnd("random-faults", prop, "dbg", n // 2, profile=profile, extra=["--faults"]))
         for m in matrix or []:
             js.append(scen(m, prop, "dbg", m))
             js.append(scen(m, prop, "rel", m))
